@@ -540,7 +540,7 @@ pub fn exec_e2e(c: &ECase) -> Outcome {
                         }
                         EOp::Drop(_) => drop(ch),
                         _ => {
-                            bh2.cmd(move |_b, io| {
+                            let _ = bh2.call(move |_b, io| {
                                 io.send_method(
                                     id,
                                     AMQPClass::Channel(Chan::Close(channel::Close {
